@@ -216,6 +216,8 @@ def check(ctx, rep):
                         ok = any(RQ.lock_held(s, o) for o in _owners(s, RQ))
                         rep.ob("R-GUARDED", "%s: stop flag written under the executor lock" % fi.qualname, ok, "the stop flag is written without the executor lock", where_of(fi, s.node), trace_of(p, s.seq))
     rep.count("guarded mutation sites", len(ng), 6)
+    for Qx, _rem in queues:
+        roles.iteration_rule(ctx, rep, Qx, "R-GUARDED")
 
 
 def _owners(ev, Qx):
